@@ -16,6 +16,9 @@
 (*        2^63, 2^64 ...) or -1074 <= e <= -21 (down to the smallest         *)
 (*        subnormal).  Only operations whose IEEE result is certain are      *)
 (*        defined on it; everything else yields "unk".                      *)
+(*   [c |-> "named", id |-> string]   a boundary double outside both ranges,  *)
+(*        known by a table of the few facts needed about it (its floor,      *)
+(*        ceiling and rounding); the harness holds its bit pattern.          *)
 (*   [c |-> "unk"]   the specification does not determine the double        *)
 (*                   (judges skip such cases; never produced on the exact   *)
 (*                   sub-domain the generators stay in).                    *)
@@ -41,6 +44,16 @@ IsUnk(a) == a.c = "unk"
 IsInf(a) == a.c = "inf"
 IsZero(a) == a.c = "zero"
 IsFin(a) == a.c = "fin"
+IsNamed(a) == a.c = "named"
+NamedNum(id) == [c |-> "named", id |-> id]
+\* halfpred = 0.49999999999999994 (the largest double below 1/2: x + 0.5 rounds up to 1.0 in double arithmetic);
+\* odd52 = 2^52 + 1 (an odd integer with ulp 1: x + 0.5 is a tie that rounds to the even neighbour)
+NamedFacts(id) ==
+  CASE id = "halfpred" -> [floor |-> Zero(1), ceil |-> Fin(1, 1, 1), round |-> Zero(1), s |-> 1, int |-> FALSE]
+    [] id = "-halfpred" -> [floor |-> Fin(-1, 1, 1), ceil |-> Zero(-1), round |-> Zero(-1), s |-> -1, int |-> FALSE]
+    [] id = "odd52" -> [floor |-> NamedNum("odd52"), ceil |-> NamedNum("odd52"), round |-> NamedNum("odd52"), s |-> 1, int |-> TRUE]
+    [] id = "-odd52" -> [floor |-> NamedNum("-odd52"), ceil |-> NamedNum("-odd52"), round |-> NamedNum("-odd52"), s |-> -1, int |-> TRUE]
+NegId(id) == CASE id = "halfpred" -> "-halfpred" [] id = "-halfpred" -> "halfpred" [] id = "odd52" -> "-odd52" [] id = "-odd52" -> "odd52"
 IsP2(a) == a.c = "pow2"
 Pow2(s, e) == [c |-> "pow2", s |-> s, e |-> e]
 \* 2^e as a double: overflow to infinity above 1023, underflow to zero below -1074 (ties-to-even at -1075)
@@ -55,10 +68,11 @@ IsPow2(d) == IF d = 1 THEN TRUE ELSE IF d % 2 # 0 THEN FALSE ELSE IsPow2(d \div 
 \* exact == the abstract value is exactly a double
 Exact(a) == IF a.c = "fin" THEN IsPow2(a.d) ELSE a.c # "unk"
 Small(a) == a.c \in {"fin", "zero"}
-Sgn(a) == IF a.c \in {"inf", "zero", "fin", "pow2"} THEN a.s ELSE 1
+Sgn(a) == IF a.c \in {"inf", "zero", "fin", "pow2"} THEN a.s ELSE IF a.c = "named" THEN NamedFacts(a.id).s ELSE 1
 SN(a) == a.s * a.n   \* signed numerator of a fin
 
 Neg(a) == CASE a.c = "nan" -> a
+            [] a.c = "named" -> NamedNum(NegId(a.id))
             [] a.c = "unk" -> a
             [] a.c = "inf" -> Inf(-a.s)
             [] a.c = "zero" -> Zero(-a.s)
@@ -71,6 +85,7 @@ Add(a, b) ==
   ELSE IF IsInf(b) THEN b
   ELSE IF IsZero(a) THEN (IF IsZero(b) THEN (IF a.s = -1 /\ b.s = -1 THEN Zero(-1) ELSE Zero(1)) ELSE b)
   ELSE IF IsZero(b) THEN a
+  ELSE IF IsNamed(a) \/ IsNamed(b) THEN Unk
   ELSE IF IsP2(a) \/ IsP2(b) THEN
     \* x + x = 2x, x - x = +0; a huge value absorbs a small one (|small| < 2^31 is below half an ulp of 2^85 and more)
     (IF IsP2(a) /\ IsP2(b) /\ a.e = b.e THEN (IF a.s = b.s THEN MkPow2(a.s, a.e + 1) ELSE Zero(1))
@@ -84,7 +99,7 @@ Sub(a, b) == Add(a, Neg(b))
 
 Mul(a, b) ==
   IF IsNan(a) \/ IsNan(b) THEN Nan
-  ELSE IF IsUnk(a) \/ IsUnk(b) THEN Unk
+  ELSE IF IsUnk(a) \/ IsUnk(b) \/ IsNamed(a) \/ IsNamed(b) THEN Unk
   ELSE LET s == a.s * b.s IN
     IF (IsInf(a) /\ IsZero(b)) \/ (IsZero(a) /\ IsInf(b)) THEN Nan
     ELSE IF IsInf(a) \/ IsInf(b) THEN Inf(s)
@@ -99,7 +114,7 @@ Mul(a, b) ==
 
 Div(a, b) ==
   IF IsNan(a) \/ IsNan(b) THEN Nan
-  ELSE IF IsUnk(a) \/ IsUnk(b) THEN Unk
+  ELSE IF IsUnk(a) \/ IsUnk(b) \/ IsNamed(a) \/ IsNamed(b) THEN Unk
   ELSE LET s == a.s * b.s IN
     IF (IsInf(a) /\ IsInf(b)) \/ (IsZero(a) /\ IsZero(b)) THEN Nan
     ELSE IF IsInf(a) \/ IsZero(b) THEN Inf(s)
@@ -113,7 +128,7 @@ Div(a, b) ==
 \* XPath mod: remainder of truncating division, sign of the dividend (like % in Java/ECMAScript)
 Mod(a, b) ==
   IF IsNan(a) \/ IsNan(b) THEN Nan
-  ELSE IF IsUnk(a) \/ IsUnk(b) THEN Unk
+  ELSE IF IsUnk(a) \/ IsUnk(b) \/ IsNamed(a) \/ IsNamed(b) THEN Unk
   ELSE IF IsInf(a) \/ IsZero(b) THEN Nan
   ELSE IF IsInf(b) \/ IsZero(a) THEN a
   ELSE IF IsP2(b) THEN (IF IsFin(a) /\ b.e >= 31 THEN a ELSE IF IsP2(a) /\ a.e < b.e THEN a ELSE IF IsP2(a) THEN Zero(a.s) ELSE Unk)   \* |a| < |b|: a itself; 2^i mod 2^j (i >= j) = 0
@@ -124,9 +139,23 @@ Mod(a, b) ==
   ELSE Mk(a.s * ((a.n * b.d) % (b.n * a.d)), a.d * b.d, a.s)
 
 \* comparisons (IEEE: NaN compares false with everything)
+\* a named double lies strictly between two bracketing numerals: it is above everything at or below the
+\* lower bracket and below everything at or above the upper one; in between the comparison is unknown
+NamedBracket(id) ==
+  CASE id = "halfpred" -> <<Fin(1, 1, 4), Fin(1, 1, 2)>>
+    [] id = "-halfpred" -> <<Fin(-1, 1, 2), Fin(-1, 1, 4)>>
+    [] id = "odd52" -> <<Pow2(1, 52), Pow2(1, 53)>>
+    [] id = "-odd52" -> <<Pow2(-1, 53), Pow2(-1, 52)>>
+RECURSIVE Cmp(_, _)
+CmpNamed(id, x) ==   \* x is not named, not nan, not unk
+  LET br == NamedBracket(id) IN
+  IF Cmp(x, br[1]) \in {-1, 0} THEN 1 ELSE IF Cmp(x, br[2]) \in {0, 1} THEN -1 ELSE 3
 Cmp(a, b) == \* -1, 0, 1 for comparable values; 2 when unordered; 3 unknown
   IF IsUnk(a) \/ IsUnk(b) THEN 3
   ELSE IF IsNan(a) \/ IsNan(b) THEN 2
+  ELSE IF IsNamed(a) /\ IsNamed(b) THEN (IF a = b THEN 0 ELSE IF NamedFacts(a.id).s # NamedFacts(b.id).s THEN NamedFacts(a.id).s ELSE 3)
+  ELSE IF IsNamed(a) THEN CmpNamed(a.id, b)
+  ELSE IF IsNamed(b) THEN (LET r == CmpNamed(b.id, a) IN IF r = 3 THEN 3 ELSE -r)
   ELSE IF IsInf(a) THEN (IF IsInf(b) /\ b.s = a.s THEN 0 ELSE a.s)
   ELSE IF IsInf(b) THEN -b.s
   ELSE IF IsP2(a) \/ IsP2(b) THEN
@@ -152,14 +181,14 @@ NumKnown(a, b) == Cmp(a, b) # 3
 FloorDiv(sn, d) == IF sn >= 0 THEN sn \div d ELSE -(((-sn) + d - 1) \div d)
 
 \* 2^e: an integer for e >= 0, a tiny fraction for e < 0
-Floor(a) == IF IsP2(a) THEN (IF a.e >= 0 THEN a ELSE IF a.s = 1 THEN Zero(1) ELSE Fin(-1, 1, 1))
+Floor(a) == IF IsNamed(a) THEN NamedFacts(a.id).floor ELSE IF IsP2(a) THEN (IF a.e >= 0 THEN a ELSE IF a.s = 1 THEN Zero(1) ELSE Fin(-1, 1, 1))
             ELSE IF a.c # "fin" THEN a
             ELSE Mk(FloorDiv(SN(a), a.d), 1, a.s)
-Ceil(a) == IF IsP2(a) THEN (IF a.e >= 0 THEN a ELSE IF a.s = 1 THEN Fin(1, 1, 1) ELSE Zero(-1))
+Ceil(a) == IF IsNamed(a) THEN NamedFacts(a.id).ceil ELSE IF IsP2(a) THEN (IF a.e >= 0 THEN a ELSE IF a.s = 1 THEN Fin(1, 1, 1) ELSE Zero(-1))
            ELSE IF a.c # "fin" THEN a
            ELSE Mk(-FloorDiv(-SN(a), a.d), 1, a.s)
 \* round(): closest integer, ties toward +infinity; [-0.5, -0) gives -0
-Round(a) == IF IsP2(a) THEN (IF a.e >= 0 THEN a ELSE Zero(a.s))
+Round(a) == IF IsNamed(a) THEN NamedFacts(a.id).round ELSE IF IsP2(a) THEN (IF a.e >= 0 THEN a ELSE Zero(a.s))
             ELSE IF a.c # "fin" THEN a
             ELSE Mk(FloorDiv(2 * SN(a) + a.d, 2 * a.d), 1, a.s)
 
@@ -167,7 +196,7 @@ Round(a) == IF IsP2(a) THEN (IF a.e >= 0 THEN a ELSE Zero(a.s))
 \* below -0.5 away from zero (round(-1.5) = -2), pinned by the repository's TestFunctionRound
 RoundNegTieDown(a) == IF a.c = "fin" /\ a.s = -1 /\ a.d = 2 /\ a.n > 1 THEN Floor(a) ELSE Round(a)
 
-IsInteger(a) == a.c = "zero" \/ (a.c = "fin" /\ a.d = 1) \/ (a.c = "pow2" /\ a.e >= 0)
+IsInteger(a) == (a.c = "named" /\ NamedFacts(a.id).int) \/ a.c = "zero" \/ (a.c = "fin" /\ a.d = 1) \/ (a.c = "pow2" /\ a.e >= 0)
 
 \* the integer value of a numeral that IsInteger
 IntVal(a) == IF a.c = "zero" THEN 0 ELSE SN(a)
